@@ -599,3 +599,43 @@ def replay_model_idx2uid(obligation=None, model=None, meta=None):
     return {'confirmed': False, 'tried': n}
 
 replay_model_idx2uid.real_system = True
+
+
+def replay_idxparam_add(obligation=None, model=None, meta=None):
+    """native run of the real IdxParam.add on a unique parameter: a value that names a device already referred to -- in any spelling
+    that is the same dictionary key (1, 1.0, numpy integers and floats, equal strings) -- raises IndexError and stores nothing; other values
+    are stored; a non-unique parameter stores everything"""
+    import numpy as np
+    from andes.core.param import IdxParam
+    from contracts.packutil import Stub
+    n = 0
+    for first, again, others in ((1, [1, 1.0, np.int64(1), np.float64(1.0), np.int32(1), True], [2, '1', 1.5]),
+                                 ('G1', ['G1', np.str_('G1')], ['g1', 'G1 ', 1]),
+                                 (2.0, [2, 2.0, np.int64(2)], [3, '2.0'])):
+        for unique in (True, False):
+            p = IdxParam(model='SynGen', unique=unique)
+            p.owner = Stub(class_name='TGOV1')
+            p.name = 'syn'
+            p.add(first)
+            for v in again:
+                n += 1
+                before = list(p.v)
+                try:
+                    p.add(v)
+                    raised = False
+                except IndexError:
+                    raised = True
+                if raised != unique or (raised and list(p.v) != before):
+                    return {'confirmed': True, 'inputs': {'unique': unique, 'values added': [first, repr(v)]},
+                            'observed': 'the second addition %s; the parameter holds %r' % ('raised IndexError' if raised else 'was accepted', list(p.v)),
+                            'native_cmd': "IdxParam(model='SynGen', unique=%r); add(%r); add(%r)" % (unique, first, v)}
+                if not unique:
+                    p.v.pop()
+            for v in others:
+                n += 1
+                try:
+                    p.add(v)
+                except IndexError:
+                    return {'confirmed': True, 'inputs': {'unique': unique, 'values added': [first, repr(v)]}, 'observed': 'a value that names another device was refused',
+                            'native_cmd': "IdxParam.add"}
+    return {'confirmed': False, 'tried': n}
